@@ -32,6 +32,7 @@ static mut ZST_DROPS: u64 = 0;
 pub fn reset() {
     crate::fence::reset();
     crate::fence::reset_fm();
+    crate::fence::reset_tok();
     unsafe {
         for i in 0..(NEXT_ID as usize).min(MAX_ID) {
             STATE[i] = UNBORN;
